@@ -1,4 +1,5 @@
 import IndicatifModel.Model.Adaptors
+import IndicatifModel.Model.IterWrap
 /-!
 # C17 — adaptors count exactly (I/O wrappers, model level)
 -/
@@ -47,3 +48,122 @@ theorem C17_fails_unrepaired_seek :
   decide
 
 end IndicatifModel.Adaptors
+
+/-! ## The iterator wrapper: transparency, counting, finishing on exhaustion -/
+namespace IndicatifModel.IterWrap
+open Position
+
+/-- item answers of a transcript (latest first), oldest first -/
+def itemAnswers {α : Type} : List (Ans α) → List (Option α)
+  | [] => []
+  | .item r :: tr => itemAnswers tr ++ [r]
+  | .hint _ _ :: tr => itemAnswers tr
+
+theorem wrapCall_ans {U α : Type} (I : Under U α) (u : U) (b : St) (c : Call) :
+    (wrapCall I u b c).1 = (bareCall I u c).1 ∧ (wrapCall I u b c).2.1 = (bareCall I u c).2 := by
+  cases c <;> exact ⟨rfl, rfl⟩
+
+/-- **C17, transparency of the iterator wrapper.** Whatever the underlying iterator (fused or not, finite or not) and
+whatever the caller does — any program that picks its next call among `next`, `next_back` and `size_hint` from the answers
+it has seen, which covers every default method of `Iterator` (`nth`, `fold`, `count`, `last`, `step_by`, `skip`, `zip`, ...) —
+the wrapped iterator gives the same answers, in the same order, and leaves the underlying iterator in the same state as the
+bare one; the bar has no influence on either. -/
+theorem C17_iter_transparent {U α : Type} (I : Under U α) (c : Client α) : ∀ (fuel : Nat) (u : U) (b : St) (tr : List (Ans α)),
+    (runWrap I c fuel u b tr).1 = (runBare I c fuel u tr).1 ∧ (runWrap I c fuel u b tr).2.1 = (runBare I c fuel u tr).2
+  | 0, _, _, _ => ⟨rfl, rfl⟩
+  | fuel + 1, u, b, tr => by
+    simp only [runWrap, runBare]
+    cases c tr with
+    | none => exact ⟨rfl, rfl⟩
+    | some call =>
+      have h := wrapCall_ans I u b call
+      simp only
+      rw [h.1, h.2]
+      exact C17_iter_transparent I c fuel _ _ _
+
+theorem wrapCall_bar {U α : Type} (I : Under U α) (u : U) (b b0 : St) (c : Call) (tr : List (Ans α))
+    (h : b = barAfter b0 (itemAnswers tr)) :
+    (wrapCall I u b c).2.2 = barAfter b0 (itemAnswers ((wrapCall I u b c).1 :: tr)) := by
+  cases c <;> simp [wrapCall, itemAnswers, barAfter, List.foldl_append, h]
+
+/-- the bar after any run is determined by the item answers alone: one `inc(1)` per item, the configured finish at an
+end-of-iteration answer unless already finished; `size_hint` never touches the bar -/
+theorem runWrap_bar {U α : Type} (I : Under U α) (c : Client α) (b0 : St) : ∀ (fuel : Nat) (u : U) (b : St) (tr : List (Ans α)),
+    b = barAfter b0 (itemAnswers tr) →
+    (runWrap I c fuel u b tr).2.2 = barAfter b0 (itemAnswers (runWrap I c fuel u b tr).1)
+  | 0, _, _, _, h => h
+  | fuel + 1, u, b, tr, h => by
+    simp only [runWrap]
+    cases c tr with
+    | none => exact h
+    | some call => exact runWrap_bar I c b0 fuel _ _ _ (wrapCall_bar I u b b0 call tr h)
+
+theorem barAfter_somes {α : Type} : ∀ (answers : List (Option α)) (b : St), (∀ r ∈ answers, r.isSome) → b.pos < U64 →
+    (barAfter b answers).pos = (b.pos + answers.length) % U64 ∧ (barAfter b answers).finished = b.finished ∧
+    (barAfter b answers).len = b.len ∧ (barAfter b answers).moves = b.moves
+  | [], b, _, hp => ⟨by simp [barAfter, Nat.mod_eq_of_lt hp], rfl, rfl, rfl⟩
+  | r :: rs, b, h, hp => by
+    have hr : r.isSome := h r (by simp)
+    cases r with
+    | none => cases hr
+    | some x =>
+      have hpos : (step b (.inc 1)).pos < U64 := Nat.mod_lt _ (by decide +kernel)
+      have ih := barAfter_somes rs (step b (.inc 1)) (fun r hr => h r (by simp [hr])) hpos
+      simp only [barAfter, List.foldl_cons, onItem] at ih ⊢
+      refine ⟨?_, ih.2.1, ih.2.2.1, ih.2.2.2⟩
+      rw [ih.1]
+      simp only [step, wrapAdd, List.length_cons]
+      rw [Nat.mod_add_mod]
+      congr 1; omega
+
+/-- **C17, counting and finishing of the iterator wrapper.** After any run of any caller on any underlying iterator, started
+with a fresh transcript: as long as no end-of-iteration answer was given the position has advanced by exactly the number of
+items handed to the caller (mod 2^64) and the bar is not finished by the wrapper; -/
+theorem C17_iter_counts {U α : Type} (I : Under U α) (c : Client α) (fuel : Nat) (u : U) (b : St) (hp : b.pos < U64)
+    (hall : ∀ r ∈ itemAnswers (runWrap I c fuel u b []).1, r.isSome) :
+    (runWrap I c fuel u b []).2.2.pos = (b.pos + (itemAnswers (runWrap I c fuel u b []).1).length) % U64 ∧
+    (runWrap I c fuel u b []).2.2.finished = b.finished ∧ (runWrap I c fuel u b []).2.2.len = b.len := by
+  rw [runWrap_bar I c b fuel u b [] rfl]
+  have h := barAfter_somes _ b hall hp
+  exact ⟨h.1, h.2.1, h.2.2.1⟩
+
+theorem onItem_none_finished {α : Type} (b : St) : (onItem b (none : Option α)).finished = true := by
+  cases hf : b.finished <;> cases hm : b.moves <;> simp [onItem, step, hf, hm]
+
+theorem onItem_keeps_finished {α : Type} (b : St) (r : Option α) (h : b.finished = true) : (onItem b r).finished = true := by
+  cases r with
+  | none => exact onItem_none_finished b
+  | some x => simpa [onItem, step] using h
+
+theorem barAfter_keeps_finished {α : Type} : ∀ (answers : List (Option α)) (b : St), b.finished = true → (barAfter b answers).finished = true
+  | [], _, h => h
+  | r :: rs, b, h => barAfter_keeps_finished rs _ (onItem_keeps_finished b r h)
+
+/-- **exhaustion finishes the bar, once.** The first end-of-iteration answer applies the configured finish behaviour
+(position := length when it is one of the finishing kinds and a length is set, unchanged for the abandoning kinds; finished),
+a bar that is finished already is left exactly as it is (so a second `None`, or a `None` after the user finished the bar by hand,
+changes nothing), and once finished the bar stays finished whatever the iterator answers later -/
+theorem C17_iter_exhaustion {α : Type} (b : St) :
+    (b.finished = false → onItem b (none : Option α) = step b .finishStyle ∧
+      (onItem b (none : Option α)).finished = true ∧
+      (onItem b (none : Option α)).pos = (if b.moves then b.len.getD b.pos else b.pos)) ∧
+    (b.finished = true → onItem b (none : Option α) = b) ∧
+    onItem (onItem b (none : Option α)) (none : Option α) = onItem b (none : Option α) ∧
+    (∀ answers : List (Option α), (barAfter (onItem b (none : Option α)) answers).finished = true) := by
+  refine ⟨fun h => ?_, fun h => by simp [onItem, h], ?_, fun answers => barAfter_keeps_finished answers _ (onItem_none_finished b)⟩
+  · refine ⟨by simp [onItem, h], onItem_none_finished b, ?_⟩
+    simp only [onItem, h, step]
+    by_cases hm : b.moves = true <;> simp [hm]
+  · have hf := onItem_none_finished (α := α) b
+    show (if (onItem b (none : Option α)).finished = true then onItem b none else _) = _
+    rw [if_pos hf]
+
+/-- non-vacuity: `nth(1)` twice then `next` on a three-item list iterator with length 9 and a finishing behaviour -/
+example :
+    let c : Client Nat := fun tr => if tr.length < 6 then some .next else none
+    (runWrap (listUnder Nat) c 10 [7, 8, 9] { len := some 9 } []).1 = (runBare (listUnder Nat) c 10 [7, 8, 9] []).1 ∧
+    (runWrap (listUnder Nat) c 10 [7, 8, 9] { len := some 9 } []).2.2.pos = 9 ∧
+    (runWrap (listUnder Nat) c 10 [7, 8, 9] { len := some 9 } []).2.2.finished = true := by
+  decide
+
+end IndicatifModel.IterWrap
